@@ -42,14 +42,14 @@ def indep_decode(version, table_by_id, data):
 
 class Contain(Harness):
     name = "c08_contain"
-    must_reach = ("valid-completes", "id-mismatch", "undecodable", "unknown-id", "callback", "too-short", "later-ok", "foreign-seq")
+    must_reach = ("valid-completes", "id-mismatch", "undecodable", "unknown-id", "callback", "too-short", "later-ok", "foreign-seq", "late-reply")
     functions = ("EZSP.frame_received", "ProtocolHandler.__call__", "ProtocolHandler.command", "EZSP.handle_callback",
                  "bellows.types.deserialize_dict")
 
     def must_reach_for(self, params):
         mode = params.get("mode", "mutate")
         if mode == "idsweep":
-            return ["valid-completes", "id-mismatch", "later-ok"]
+            return ["valid-completes", "id-mismatch", "later-ok", "late-reply"]
         if mode == "free":
             return ["too-short", "later-ok"]
         return list(self.must_reach)
@@ -180,6 +180,17 @@ class Contain(Harness):
                 except (asyncio.TimeoutError, Exception):
                     pass
                 ctx.check(ptask.done(), "pending %s neither completed nor timed out" % pend, "pending-hangs")
+            if ptask is not None and ptask.done() and not ptask.cancelled() and isinstance(ptask.exception(), asyncio.TimeoutError):
+                # the genuine reply finally arrives, late: nothing may escape the receive entry point (not even a BaseException)
+                ctx.label("late-reply")
+                fid_p, _tx_p, rx_p = ph.COMMANDS[pend]
+                late = bytes(E.header(version, pseq, fid_p) + E.enc_schema(rx_p, E.sample_schema(rx_p, 2)))
+                try:
+                    ez.frame_received(late)
+                except BaseException as e:
+                    if type(e).__module__.startswith("symx"):
+                        raise
+                    ctx.fail("frame_received raised %s on the late reply to a timed-out %s" % (type(e).__name__, pend), "rx-raises-late-reply")
             n0 = len(gw.sent)
             later = loop.create_task(ph.command("getConfigurationValue", E.build(list(ph.COMMANDS["getConfigurationValue"][1].values())[0], 1)))
             await asyncio.sleep(0)
